@@ -7,7 +7,7 @@ from mc import common, mk, sched
 from mc.common import Stats
 from mc.props import c13
 
-THREAD_SCENARIOS = ['seq', 'opt', 'bits', 'proto-pickle', 'selector-fresh', 'selector-shared', 'selector-two', 'marker', 'regex-kept', 'regex-nonkept',
+THREAD_SCENARIOS = ['seq', 'opt', 'bits', 'proto-pickle', 'selector-fresh', 'selector-shared', 'selector-two', 'marker', 'regex-kept', 'regex-nonkept', 'regex-nonkept-seq',
                     'described', 'two-levels', 'positioned', 'seq-data', 'default-list', 'expr']
 
 
